@@ -529,3 +529,169 @@ Example ex_fragments :
   tcp_writes ex_tp_frag [1;2;3]%N [] = [[1;2]; [3]]%N /\
   frag_sleep ex_tp_frag 17 = Some 5 /\ frag_sleep None 17 = None.
 Proof. vm_compute. repeat split; reflexivity. Qed.
+
+(* ------------------------------------------------------------------ UDP server: pattern independent of the block's origin *)
+
+Lemma set_nth_length {A} (l : list A) : forall i x, length (set_nth l i x) = length l.
+Proof. induction l as [|h t IH]; intros [|i] x; cbn [set_nth length]; auto. Qed.
+
+Lemma set_nth_Forall {A} (P : A -> Prop) (l : list A) : forall i x, Forall P l -> P x -> Forall P (set_nth l i x).
+Proof.
+  induction l as [|h t IH]; intros [|i] x Hl Hx; cbn [set_nth]; auto; inversion Hl; subst; constructor; auto.
+Qed.
+
+Section Srv.
+  Variable tp : option pattern.
+
+  Definition blk_ok (b : sblock) : Prop := bk_pattern b = server_nonce_cfg tp.
+  (* the datagram carries the configured pattern, and with applyToAllUDPPacket the pattern is applied to it *)
+  Definition dg_ok (d : out_dgram) : Prop :=
+    dg_pattern d = server_nonce_cfg tp /\
+    (forall np, server_nonce_cfg tp = Some np -> getB (np_all_udp np) = true -> dg_patterned d = true).
+  Definition st_ok (st : srv_state) : Prop :=
+    Forall blk_ok (st_blocks st) /\
+    Forall (fun s => (us_block s < length (st_blocks st))%nat) (st_sessions st).
+
+  Lemma emit_one_ok path b : blk_ok b ->
+    dg_ok (fst (emit_one path b)) /\ blk_ok (snd (emit_one path b)) /\ dg_path (fst (emit_one path b)) = path.
+  Proof.
+    unfold blk_ok, dg_ok, emit_one. intros Hb.
+    destruct (bk_pattern b) as [np|] eqn:E; cbn [fst snd dg_pattern dg_patterned dg_path bk_pattern].
+    - split; [split|split]; try reflexivity; try exact Hb.
+      intros np' Hc Hall. rewrite <- Hb in Hc. inversion Hc; subst np'.
+      rewrite Hall. destruct (bk_applied b); reflexivity.
+    - split; [split|split]; try reflexivity; try exact Hb; try (rewrite E; exact Hb).
+      intros np' Hc. rewrite <- Hb in Hc. discriminate.
+  Qed.
+
+  Lemma emit_n_ok path : forall n b, blk_ok b ->
+    Forall dg_ok (fst (emit_n path b n)) /\ blk_ok (snd (emit_n path b n)) /\
+    length (fst (emit_n path b n)) = n /\ Forall (fun d => dg_path d = path) (fst (emit_n path b n)).
+  Proof.
+    induction n as [|n IH]; intros b Hb; cbn [emit_n].
+    - cbn. repeat split; auto.
+    - destruct (emit_one_ok path b Hb) as (H1 & H2 & H3).
+      destruct (emit_one path b) as [d b1]. cbn [fst snd] in *.
+      destruct (IH b1 H2) as (I1 & I2 & I3 & I4).
+      destruct (emit_n path b1 n) as [ds b2]. cbn [fst snd length] in *.
+      repeat split; auto.
+  Qed.
+
+  Lemma srv_tail path bi blocks1 sessions1 n :
+    Forall blk_ok blocks1 -> (bi < length blocks1)%nat ->
+    Forall (fun s => (us_block s < length blocks1)%nat) sessions1 ->
+    let r := match nth_error blocks1 bi with
+             | None => ([], {| st_blocks := blocks1; st_sessions := sessions1 |})
+             | Some b => let '(ds, b') := emit_n path b n in
+                         (ds, {| st_blocks := set_nth blocks1 bi b'; st_sessions := sessions1 |})
+             end in
+    Forall dg_ok (fst r) /\ st_ok (snd r) /\ length (fst r) = n /\ Forall (fun d => dg_path d = path) (fst r).
+  Proof.
+    intros Hb Hi Hs. cbv zeta.
+    destruct (nth_error blocks1 bi) as [b|] eqn:E.
+    2:{ apply nth_error_None in E. lia. }
+    assert (Hbo : blk_ok b). { eapply Forall_forall; [exact Hb | eapply nth_error_In; exact E]. }
+    destruct (emit_n_ok path n b Hbo) as (I1 & I2 & I3 & I4).
+    destruct (emit_n path b n) as [ds b']. cbn [fst snd] in *.
+    repeat split; auto.
+    - cbn [st_blocks]. apply set_nth_Forall; assumption.
+    - cbn [st_blocks st_sessions]. rewrite set_nth_length. exact Hs.
+  Qed.
+
+  Lemma srv_step_ok st ev : st_ok st ->
+    Forall dg_ok (fst (srv_step tp true st ev)) /\ st_ok (snd (srv_step tp true st ev)) /\
+    (length (fst (srv_step tp true st ev)) = ev_out ev \/ length (fst (srv_step tp true st ev)) = 1%nat).
+  Proof.
+    intros [Hb Hs]. unfold srv_step.
+    assert (Hold : forall s, In s (st_sessions st) -> (us_block s < length (st_blocks st))%nat).
+    { apply Forall_forall. exact Hs. }
+    (* the block and its index *)
+    assert (Hsel : exists path bi blocks1,
+      (match find (fun s => us_addr s =? ev_addr ev) (st_sessions st) with
+       | Some s => (OriginExisting, us_block s, st_blocks st)
+       | None => (if ev_open ev then OriginOpen else OriginRediscovered, length (st_blocks st),
+                  st_blocks st ++ [discover tp true (if ev_open ev then OriginOpen else OriginRediscovered)])
+       end) = (path, bi, blocks1) /\
+      Forall blk_ok blocks1 /\ (bi < length blocks1)%nat /\ (length (st_blocks st) <= length blocks1)%nat).
+    { destruct (find (fun s => us_addr s =? ev_addr ev) (st_sessions st)) as [s|] eqn:F.
+      - apply find_some in F. destruct F as [Fin _].
+        do 3 eexists. split; [reflexivity|]. repeat split; auto.
+      - do 3 eexists. split; [reflexivity|]. rewrite app_length. cbn [length]. repeat split; try lia.
+        apply Forall_app. split; [exact Hb|]. constructor; [|constructor].
+        unfold blk_ok, discover. cbn [bk_pattern orb]. reflexivity. }
+    destruct Hsel as (path & bi & blocks1 & Esel & Hb1 & Hbi & Hlen).
+    cbv zeta in Esel |- *. rewrite Esel.
+    assert (Hs1 : Forall (fun s => (us_block s < length blocks1)%nat) (st_sessions st)).
+    { eapply Forall_impl; [|exact Hs]. cbv beta. intros; lia. }
+    destruct (find (fun s => us_sid s =? ev_sid ev) (st_sessions st)) as [k|].
+    - pose proof (srv_tail path bi blocks1
+        (map (fun s => if us_sid s =? ev_sid ev then {| us_sid := us_sid s; us_addr := us_addr s; us_block := bi |} else s)
+             (st_sessions st)) (ev_out ev) Hb1 Hbi) as T. cbv zeta in T.
+      destruct T as (T1 & T2 & T3 & _).
+      { apply Forall_forall. intros s Hin. apply in_map_iff in Hin. destruct Hin as (s0 & <- & Hin0).
+        destruct (us_sid s0 =? ev_sid ev); [cbn [us_block]; exact Hbi|].
+        eapply Forall_forall in Hs1; [exact Hs1 | exact Hin0]. }
+      split; [exact T1 | split; [exact T2 | left; exact T3]].
+    - destruct (ev_open ev).
+      + pose proof (srv_tail path bi blocks1
+          (st_sessions st ++ [{| us_sid := ev_sid ev; us_addr := ev_addr ev; us_block := bi |}]) (ev_out ev) Hb1 Hbi) as T.
+        cbv zeta in T. destruct T as (T1 & T2 & T3 & _).
+        { apply Forall_app. split; [exact Hs1|]. constructor; [cbn [us_block]; exact Hbi | constructor]. }
+        split; [exact T1 | split; [exact T2 | left; exact T3]].
+      + pose proof (srv_tail path bi blocks1 (st_sessions st) 1%nat Hb1 Hbi Hs1) as T.
+        cbv zeta in T. destruct T as (T1 & T2 & T3 & _).
+        split; [exact T1 | split; [exact T2 | right; exact T3]].
+  Qed.
+
+  Lemma srv_run_ok : forall hist st, st_ok st ->
+    Forall2 (fun ev ds => Forall dg_ok ds /\ (length ds = ev_out ev \/ length ds = 1%nat)) hist (srv_run tp true st hist).
+  Proof.
+    induction hist as [|ev rest IH]; intros st Hst; cbn [srv_run]; [constructor|].
+    destruct (srv_step_ok st ev Hst) as (H1 & H2 & H3).
+    destruct (srv_step tp true st ev) as [ds st1]. cbn [fst snd] in *.
+    constructor; [split; assumption | apply IH; exact H2].
+  Qed.
+
+  Lemma srv_empty_ok : st_ok srv_empty.
+  Proof. split; constructor. Qed.
+End Srv.
+
+(* for every configuration and every history of authenticated incoming datagrams: every datagram the server emits
+   carries exactly the configured nonce pattern - a function of the configuration only, whichever path produced the
+   cipher block - with applyToAllUDPPacket the pattern is applied to it, and every incoming datagram is answered
+   with the datagrams it calls for (the totalised "invalid block index" branch is never taken) *)
+Lemma udp_pattern_independent_of_block_origin tp hist :
+  Forall2 (fun ev ds =>
+             Forall (fun d => dg_pattern d = server_nonce_cfg tp /\
+                              (forall np, server_nonce_cfg tp = Some np -> getB (np_all_udp np) = true ->
+                                          dg_patterned d = true)) ds /\
+             (length ds = ev_out ev \/ length ds = 1%nat))
+          hist (srv_run tp true srv_empty hist).
+Proof. apply srv_run_ok. apply srv_empty_ok. Qed.
+
+(* whatever the path, the first datagram encrypted with a newly discovered block gets the pattern
+   (applyToAllUDPPacket false or unset included) *)
+Lemma udp_first_datagram_patterned tp path np :
+  server_nonce_cfg tp = Some np -> dg_patterned (fst (emit_one path (discover tp true path))) = true.
+Proof.
+  intros E. unfold discover, emit_one. cbn [orb bk_pattern bk_applied]. rewrite E.
+  cbn [fst dg_patterned]. unfold nonce_pattern_applies. cbn. reflexivity.
+Qed.
+
+(* the variant that sets the pattern in onOpenSessionRequest only: rebinding and an unknown session id both make
+   the server emit a datagram without the configured pattern (so the statement above is not vacuous) *)
+Definition ex_srv_tp : option pattern :=
+  Some {| tp_seed := None; tp_unlock := None; tp_tcp := None;
+          tp_nonce := Some {| np_type := Some 1; np_all_udp := Some true; np_min := Some 12; np_max := Some 12; np_hex := [] |};
+          tp_pad := None; tp_le := None |}.
+Definition ex_hist : list in_event :=
+  [ {| ev_open := true; ev_sid := 7; ev_addr := 1; ev_out := 2 |};     (* open from address 1 *)
+    {| ev_open := false; ev_sid := 7; ev_addr := 1; ev_out := 1 |};    (* data, same address: existing block *)
+    {| ev_open := false; ev_sid := 7; ev_addr := 2; ev_out := 2 |};    (* same session from address 2: rediscovered *)
+    {| ev_open := false; ev_sid := 9; ev_addr := 3; ev_out := 5 |} ].  (* unknown session id: one close request *)
+Example ex_srv_paths :
+  map (map dg_path) (srv_run ex_srv_tp true srv_empty ex_hist) =
+    [[OriginOpen; OriginOpen]; [OriginExisting]; [OriginRediscovered; OriginRediscovered]; [OriginRediscovered]] /\
+  map (map dg_patterned) (srv_run ex_srv_tp true srv_empty ex_hist) = [[true; true]; [true]; [true; true]; [true]] /\
+  map (map dg_patterned) (srv_run ex_srv_tp false srv_empty ex_hist) = [[true; true]; [true]; [false; false]; [false]].
+Proof. vm_compute. repeat split; reflexivity. Qed.
